@@ -557,7 +557,8 @@ class Gen:
         self.adhoc_used = set()
         self.enabled_fams = list(FAMS)
         self.dyn_p = {}
-        self.distinct = False     # soak: literals are unique random values, not pool values
+        self.distinct = False     # soak: literals are unique values, not pool values; "seq" =
+        self.seq = 1              # consecutive small integers 2, 3, 4 ... instead of random ones
         self.prefer_lit = False   # first-use: literal encodings (their near misses follow)
 
     def fresh_reg(self):
@@ -617,8 +618,14 @@ class Gen:
     def rand_bits(self, n):
         return self.rng.getrandbits(n)
 
+    def next_seq(self):
+        self.seq += 1
+        return self.seq
+
     def lit_int(self):
         r = self.rng
+        if self.distinct == "seq":
+            return self.next_seq()
         if self.distinct:
             return r.getrandbits(r.choice([40, 160, 256]))
         return r.choice([0, 1, 2, 3, -1, 5, 7, 255, 256, 2**64, 2**255 - 19, BLS_P, BN_P, -BN_P,
@@ -628,6 +635,8 @@ class Gen:
     def lit_intv(self, fam):
         r = self.rng
         p = self.dyn_p.get(fam) or fam_info(fam)["p"]
+        if self.distinct == "seq" and p > 10 ** 6:
+            return self.next_seq()
         if self.distinct and p > 10 ** 6:
             return r.randrange(p)
         x = r.random()
@@ -823,7 +832,9 @@ class Gen:
             x = r.random()
             if x < 0.1:
                 n = r.choice([n - 1, n + 1])     # wrong length: error path
-            if x < 0.55:
+            if self.distinct:
+                vals = [self.lit_intv(fam)] + [r.choice([0, 1, 2]) for _ in range(n - 1)]
+            elif x < 0.55:
                 vals = [r.choice([0, 0, 0, 1, 2, 3, 5]) for _ in range(n)]
             else:
                 vals = [self.lit_intv(fam) for _ in range(n)]
@@ -859,6 +870,14 @@ class Gen:
         regs = b.avail(ty)
         cands = self.consts_for(ty)
         x = r.random()
+        if self.distinct:
+            # soak: a fresh distinct value nearly always
+            if cands and x < 0.06:
+                return r.choice(cands)
+            if regs and x < 0.12:
+                return {"reg": r.choice(regs)}
+            if self.produce(b, ty):
+                return {"reg": b.avail(ty)[-1]}
         if regs and x < 0.55:
             return {"reg": r.choice(regs)}
         if cands and x < 0.8:
@@ -1720,6 +1739,24 @@ class Scenarios(Gen):
                                op(suite + ".Verify", [lit(pk), lit(B(MSGS[js[0]])),
                                                       lit(B(bytes.fromhex(sg[1])[:95]))]))
             ops.append(per)
+        # aggregates over repeated messages (legal outside the basic suite): a, b, a
+        for q, suite in enumerate(SUITES):
+            if suite == "G2Basic" or r.random() < 0.5:
+                continue
+            ks = r.sample(range(len(SKS)), 3)
+            a_, b_ = r.sample(range(3), 2)
+            jj = r.choice([[a_, b_, a_], [a_, a_, b_], [b_, a_, a_]])
+            pks3 = [self.pool_pk(k) for k in ks]
+            sg3 = [self.pool_sig(suite, k, j) for k, j in zip(ks, jj)]
+            if any(v is None for v in pks3 + sg3):
+                continue
+            agg = self.gold_value(["c", "suite." + suite, "Aggregate"], [["list", sg3]])
+            if agg is None:
+                continue
+            ops[q].append({"fn": ["c", "suite." + suite, "AggregateVerify"],
+                           "args": [{"list": [lit(p) for p in pks3]},
+                                    {"list": [lit(B(MSGS[j])) for j in jj]}, lit(agg)],
+                           "kind": suite + ".AggregateVerify"})
         if r.random() < 0.6:
             ops[2].append(op("POP.PopProve", [sk], out=True))
             pop = self.pool_pop(i)
@@ -1946,17 +1983,43 @@ class Scenarios(Gen):
             picked.append(r.choices(ts, [0.2 + t.cost ** 0.5 for t in ts])[0])
         if not picked:
             picked = [r.choice(cands)]
+        if not kinds and r.random() < 0.5:
+            picked = picked[:1]          # one function alone (e.g. one modulus for a long time)
         spec["focus"] = "+".join(t.kind for t in picked)
-        self.distinct = True
-        ops = []
+        # probes: the same operation in the sibling families / suites (and the picked
+        # kinds themselves) on ordinary pool arguments, before the long run and -
+        # the very same calls - after it: what did the long run do to everybody else?
+        probes = []
+        pb = Builder(self)
+        mode = "seq" if r.random() < 0.5 else True
+        if mode == "seq":
+            # small consecutive integers everywhere: the probes' operands 2, 3, 4 ...
+            # are also among the long run's operands
+            self.distinct = "seq"
+            self.seq = 1
+        for t in picked:
+            sibs = [t] + self.siblings(t)
+            for st in r.sample(sibs, min(len(sibs), 4)):
+                self.enable_adhoc(spec, self.adhoc_of_template(st))
+                for _ in range(2):
+                    n0 = len(pb.ops)
+                    pb.emit(st)
+                    probes.append(pb.ops[-1])
+        ops = list(pb.ops)
+        self.distinct = mode
+        self.seq = 1
         consumers = {t.kind: [] for t in picked}
-        budget_ms = 9000.0
+        budget_ms = 7000.0
         per = max(40, min(n, int(budget_ms / max(0.5, sum(t.cost for t in picked)))))
+        spent = 0.0
         for i in range(per):
+            if spent > budget_ms and i >= 40:
+                break                     # producers of the arguments count too
             for t in picked:
                 bi = Builder(self)
                 op = bi.emit(t)
                 ops += bi.ops
+                spent += bi.cost + 1.5 * len(bi.ops)     # + the fork of each golden evaluation
                 consumers[t.kind].append(op)
                 x = r.random()
                 prev = None
@@ -1982,8 +2045,36 @@ class Scenarios(Gen):
                     again["out"] = self.fresh_reg()
                 ops.append(again)
         self.distinct = False
+        for prev in reversed(probes):         # ... and everybody else again, mirrored
+            again = dict(prev)
+            if "out" in again:
+                again["out"] = self.fresh_reg()
+            ops.append(again)
         spec["tasks"] = [ops]
         return spec
+
+    def siblings(self, t):
+        """the same operation in the other families / suites"""
+        g = t.group
+        if ":" not in g:
+            return []
+        head, fam = g.split(":", 1)
+        out = []
+        if head in ("field", "curve", "pairing"):
+            fams = list(FAMS) + (["F7o", "F13r"] if head == "field" else [])
+            for f in fams:
+                if f == fam:
+                    continue
+                k = t.kind.replace(fam, f, 1)
+                if k in BY_KIND and BY_KIND[k].gen is None and BY_KIND[k].cost <= 30:
+                    out.append(BY_KIND[k])
+        elif head == "bls":
+            for f in SUITES:
+                if f != fam:
+                    k = t.kind.replace(fam, f, 1)
+                    if k in BY_KIND and BY_KIND[k].gen is None and BY_KIND[k].cost <= 150:
+                        out.append(BY_KIND[k])
+        return out
 
 
 def sweep_templates(max_cost=1e9):
